@@ -97,7 +97,7 @@ func NewRegistry() *Registry {
 		"(declare-fun str_lower (Str) Str)", "(declare-fun str_upper (Str) Str)",
 		"(declare-fun str_concat (Str Str) Str)",
 	)
-	r.axioms = append(r.axioms, "(assert (= (tag nil_Any) 0))",
+	r.axioms = append(r.axioms,
 		"(assert (forall ((u Unit)) (= u unit)))",
 		"(assert (= (str_lower str_empty) str_empty))",
 		"(assert (forall ((s Str)) (! (= (str_lower (str_lower s)) (str_lower s)) :pattern ((str_lower (str_lower s))))))",
@@ -433,31 +433,128 @@ func (r *Registry) ImplPred(name string, iface *types.Interface) string {
 	return p
 }
 
-// Preamble renders all global declarations. Facts depending on the set of
-// boxes / literals known at render time are emitted here.
-func (r *Registry) Preamble() string {
+// symbolsOf tokenises an SMT-LIB fragment into its identifier set.
+func symbolsOf(text string, into map[string]bool) {
+	start := -1
+	for i := 0; i <= len(text); i++ {
+		var c byte = ' '
+		if i < len(text) {
+			c = text[i]
+		}
+		if c == '(' || c == ')' || c == ' ' || c == '\n' || c == '\t' {
+			if start >= 0 {
+				into[text[start:i]] = true
+				start = -1
+			}
+			continue
+		}
+		if start < 0 {
+			start = i
+		}
+	}
+}
+
+func declName(decl string) string {
+	f := strings.Fields(strings.TrimPrefix(decl, "("))
+	if len(f) >= 2 {
+		return strings.TrimRight(f[1], "()")
+	}
+	return ""
+}
+
+var ubiquitous = map[string]bool{"tag": true, "nil_Any": true, "forall": true, "exists": true, "assert": true, "select": true, "store": true,
+	"and": true, "or": true, "not": true, "=": true, "=>": true, "ite": true, "true": true, "false": true, "!": true, ":pattern": true,
+	"Int": true, "Bool": true, "Array": true, "as": true, "const": true, "<": true, "<=": true, ">": true, ">=": true, "+": true, "-": true, "*": true,
+	"Any": true, "Str": true, "distinct": true, "mod": true, "div": true}
+
+// PreambleFor renders the global declarations and only those axioms that
+// share a non-ubiquitous symbol with the obligation (transitively). Dropping
+// an axiom only removes an assumption, so pruning is sound.
+func (r *Registry) PreambleFor(body string) string {
+	syms := map[string]bool{}
+	symbolsOf(body, syms)
+	type ax struct {
+		text string
+		syms map[string]bool
+		in   bool
+	}
+	var axs []*ax
+	for _, a := range r.axioms {
+		m := map[string]bool{}
+		symbolsOf(a, m)
+		axs = append(axs, &ax{text: a, syms: m})
+	}
+	// define-funs may mention other symbols
+	defSyms := map[string]map[string]bool{}
+	for _, d := range r.funDecl {
+		if strings.HasPrefix(d, "(define-fun") {
+			m := map[string]bool{}
+			symbolsOf(d, m)
+			defSyms[declName(d)] = m
+		}
+	}
+	for changed := true; changed; {
+		changed = false
+		for _, a := range axs {
+			if a.in {
+				continue
+			}
+			for s := range a.syms {
+				if !ubiquitous[s] && syms[s] && r.declared[s] {
+					a.in = true
+					break
+				}
+			}
+			if a.in {
+				changed = true
+				for s := range a.syms {
+					syms[s] = true
+				}
+			}
+		}
+		for n, m := range defSyms {
+			if syms[n] {
+				for s := range m {
+					if !syms[s] {
+						syms[s] = true
+						changed = true
+					}
+				}
+			}
+		}
+	}
 	var b strings.Builder
 	b.WriteString("(set-option :produce-models true)\n(set-logic ALL)\n")
 	for _, s := range r.sortsDecl {
 		b.WriteString(s + "\n")
 	}
+	always := map[string]bool{"nil_Any": true, "tag": true, "str_empty": true, "null_SRef": true, "nil_slice": true, "unit": true}
 	for _, s := range r.funDecl {
-		b.WriteString(s + "\n")
-	}
-	for _, s := range r.axioms {
-		b.WriteString(s + "\n")
-	}
-	if len(r.strOrder) > 0 {
-		b.WriteString("(assert (distinct str_empty")
-		for _, s := range r.strOrder {
-			b.WriteString(" " + r.strLits[s])
+		n := declName(s)
+		if syms[n] || always[n] {
+			b.WriteString(s + "\n")
 		}
-		b.WriteString("))\n")
 	}
-	// implements facts for known boxed types
+	b.WriteString("(assert (= (tag nil_Any) 0))\n")
+	for _, a := range axs {
+		if a.in {
+			b.WriteString(a.text + "\n")
+		}
+	}
+	var lits []string
+	for _, s := range r.strOrder {
+		if syms[r.strLits[s]] {
+			lits = append(lits, r.strLits[s])
+		}
+	}
+	if len(lits) > 0 {
+		b.WriteString("(assert (distinct str_empty " + strings.Join(lits, " ") + "))\n")
+	}
 	preds := make([]string, 0, len(r.ifaceImpl))
 	for p := range r.ifaceImpl {
-		preds = append(preds, p)
+		if syms[p] {
+			preds = append(preds, p)
+		}
 	}
 	sort.Strings(preds)
 	for _, p := range preds {
@@ -472,4 +569,20 @@ func (r *Registry) Preamble() string {
 		fmt.Fprintf(&b, "(assert (not (%s 0)))\n", p)
 	}
 	return b.String()
+}
+
+// ZeroArr returns an array term mapping every index to the zero value of vsort.
+// cvc5 accepts (as const ...) only for value defaults, so for uninterpreted
+// zero constants a declared array with a defining axiom is used.
+func (r *Registry) ZeroArr(ksort, vsort string) string {
+	z := r.Zero(vsort)
+	if vsort == "Int" || vsort == "Bool" {
+		return "((as const (Array " + ksort + " " + vsort + ")) " + z + ")"
+	}
+	n := "zeroarr_" + sanitize(ksort) + "_" + sanitize(vsort)
+	if !r.declared[n] {
+		r.declFun(n, fmt.Sprintf("(declare-const %s (Array %s %s))", n, ksort, vsort))
+		r.axioms = append(r.axioms, fmt.Sprintf("(assert (forall ((i %s)) (! (= (select %s i) %s) :pattern ((select %s i)))))", ksort, n, z, n))
+	}
+	return n
 }
